@@ -548,7 +548,10 @@ def gen_schema(src: str) -> str:
         "Definition sig_comps : list sigcomp := [" + "; ".join(comps) + "].",
         "",
         "(* storage failures during append_data / append_files: true = the failing operation is outside every `try`,",
-        "   its exception reaches the caller *)",
+        "   its exception reaches the caller; adopt_*: the GC-protection step of append_files for pre-built files",
+        "   (_protect_adopted_files, right before the queueing) -- a `try` whose handlers all end in a bare `raise` does not",
+        "   stop an exception; adopt_cleanup_on_failure: that handler deletes every marker the call wrote; all false when",
+        "   the source has no such step *)",
     ] + [f"Definition {k} : bool := {'true' if v else 'false'}." for k, v in flags.items()] + [
         "",
     ]
